@@ -542,7 +542,7 @@ func (ex *Exec) alloc(st *State, hint string) *Term {
 	st.now = IntOp("+", st.now, IntLit(1))
 	// ghost state of a new object starts at its zero value
 	for _, g := range ex.P.cs.Ghosts {
-		if g.Immutable || g.Ret == "seq" {
+		if g.Immutable || g.Ret == "seq" || ex.initMode {
 			continue
 		}
 		func() {
